@@ -1,2 +1,1002 @@
-import Cctz.Model.Tz
-import Cctz.Model.Split
+/-
+  Helper lemmas for C16: each parsing function of the model accepts exactly the texts of the
+  corresponding relation of `Cctz.Spec.PosixGrammar`.
+-/
+import Cctz.Model.Posix
+import Cctz.Spec.PosixGrammar
+import Cctz.Proofs.IntLemmas
+
+namespace Cctz.Posix
+open Cctz Cctz.Bytes Cctz.Spec
+
+/-! ### lists -/
+
+theorem span_iff {α} (P : α → Bool) (p a rest : List α) :
+    (p.takeWhile P = a ∧ p.dropWhile P = rest) ↔
+      (p = a ++ rest ∧ (∀ c ∈ a, P c = true) ∧ (∀ c, rest.head? = some c → P c = false)) := by
+  induction p generalizing a with
+  | nil =>
+    simp only [List.takeWhile_nil, List.dropWhile_nil]
+    constructor
+    · rintro ⟨rfl, rfl⟩; simp
+    · rintro ⟨h, _, _⟩
+      have := List.append_eq_nil_iff.mp h.symm
+      exact ⟨this.1.symm, this.2.symm⟩
+  | cons x xs ih =>
+    by_cases hx : P x = true
+    · rw [List.takeWhile_cons_of_pos hx, List.dropWhile_cons_of_pos hx]
+      constructor
+      · rintro ⟨rfl, h2⟩
+        have := (ih (xs.takeWhile P)).mp ⟨rfl, h2⟩
+        refine ⟨by rw [List.cons_append, ← this.1], ?_, this.2.2⟩
+        intro c hc
+        rcases List.mem_cons.mp hc with rfl | hc
+        · exact hx
+        · exact this.2.1 c hc
+      · rintro ⟨h1, h2, h3⟩
+        cases a with
+        | nil =>
+          simp only [List.nil_append] at h1
+          have := h3 x (by rw [← h1]; rfl)
+          rw [hx] at this; exact absurd this (by simp)
+        | cons y ys =>
+          rw [List.cons_append] at h1
+          injection h1 with h1 h1'
+          subst h1
+          have := (ih ys).mpr ⟨h1', fun c hc => h2 c (List.mem_cons_of_mem _ hc), h3⟩
+          exact ⟨by rw [this.1], this.2⟩
+    · have hx' : P x = false := by simpa using hx
+      rw [List.takeWhile_cons_of_neg hx, List.dropWhile_cons_of_neg hx]
+      constructor
+      · rintro ⟨rfl, rfl⟩
+        refine ⟨rfl, by simp, ?_⟩
+        intro c hc; simp at hc; rw [← hc]; exact hx'
+      · rintro ⟨h1, h2, h3⟩
+        cases a with
+        | nil => exact ⟨rfl, by simpa using h1⟩
+        | cons y ys =>
+          rw [List.cons_append] at h1
+          injection h1 with h1 h1'
+          subst h1
+          have := h2 x (List.mem_cons_self)
+          exact absurd this hx
+
+/-! ### numerals -/
+
+theorem isDigit_iff (c : UInt8) : isDigit c = true ↔ IsDigit c := by
+  simp [isDigit, IsDigit]
+
+theorem digit_val_range (c : UInt8) (h : IsDigit c) : 0 ≤ (c.toNat : Int) - 48 ∧ (c.toNat : Int) - 48 ≤ 9 := by
+  have h1 := UInt8.le_iff_toNat_le.mp h.1
+  have h2 := UInt8.le_iff_toNat_le.mp h.2
+  simp at h1 h2
+  omega
+
+/-- the accumulator of `numVal` -/
+def numAcc (v : Int) (ds : Bytes) : Int := ds.foldl (fun v c => v * 10 + ((c.toNat : Int) - 48)) v
+
+theorem numVal_eq (ds : Bytes) : numVal ds = numAcc 0 ds := rfl
+theorem numAcc_nil (v : Int) : numAcc v [] = v := rfl
+theorem numAcc_cons (v : Int) (c : UInt8) (ds : Bytes) :
+    numAcc v (c :: ds) = numAcc (v * 10 + ((c.toNat : Int) - 48)) ds := rfl
+
+theorem numAcc_ge (v : Int) (ds : Bytes) (hv : 0 ≤ v) (hd : ∀ c ∈ ds, IsDigit c) : v ≤ numAcc v ds := by
+  induction ds generalizing v with
+  | nil => simp [numAcc_nil]
+  | cons c ds ih =>
+    rw [numAcc_cons]
+    have := digit_val_range c (hd c List.mem_cons_self)
+    have := ih (v * 10 + ((c.toNat : Int) - 48)) (by omega) (fun x hx => hd x (List.mem_cons_of_mem _ hx))
+    omega
+
+theorem numVal_nonneg (ds : Bytes) (hd : ∀ c ∈ ds, IsDigit c) : 0 ≤ numVal ds :=
+  numAcc_ge 0 ds (by omega) hd
+
+theorem kMaxInt_div : cdiv kMaxInt 10 = 214748364 := by decide
+
+theorem parseIntLoop_sound (p : Bytes) (v : Int) (any : Bool) (rest : Bytes) (v' : Int) (any' : Bool)
+    (h : parseIntLoop p v any = some (rest, v', any')) :
+    ∃ ds, p = ds ++ rest ∧ (∀ c ∈ ds, IsDigit c) ∧ v' = numAcc v ds ∧
+      any' = (any || !ds.isEmpty) ∧ NextNot IsDigit rest := by
+  induction p generalizing v any with
+  | nil =>
+    simp only [parseIntLoop] at h
+    injection h with h; injection h with h1 h2; injection h2 with h2 h3
+    subst h1 h2 h3
+    exact ⟨[], rfl, by simp, rfl, by simp, by intro c hc; simp at hc⟩
+  | cons c cs ih =>
+    rw [parseIntLoop] at h
+    by_cases hc : isDigit c = true
+    · simp only [hc, if_true] at h
+      split at h
+      · exact absurd h (by simp)
+      · split at h
+        · exact absurd h (by simp)
+        · obtain ⟨ds, h1, h2, h3, h4, h5⟩ := ih _ _ h
+          refine ⟨c :: ds, by rw [h1]; rfl, ?_, ?_, ?_, h5⟩
+          · intro x hx
+            rcases List.mem_cons.mp hx with rfl | hx
+            · exact (isDigit_iff _).mp hc
+            · exact h2 x hx
+          · rw [numAcc_cons]; exact h3
+          · rw [h4]; simp
+    · simp only [hc] at h
+      injection h with h; injection h with h1 h2; injection h2 with h2 h3
+      subst h1 h2 h3
+      refine ⟨[], rfl, by simp, rfl, by simp, ?_⟩
+      intro x hx; simp at hx; subst hx
+      intro hd; exact hc ((isDigit_iff _).mpr hd)
+
+theorem parseIntLoop_complete (ds rest : Bytes) (v : Int) (any : Bool) (hv : 0 ≤ v)
+    (hd : ∀ c ∈ ds, IsDigit c) (hr : NextNot IsDigit rest) (hmax : numAcc v ds ≤ kMaxInt) :
+    parseIntLoop (ds ++ rest) v any = some (rest, numAcc v ds, any || !ds.isEmpty) := by
+  induction ds generalizing v any with
+  | nil =>
+    simp only [List.nil_append, numAcc_nil, List.isEmpty_nil, Bool.not_true, Bool.or_false]
+    cases rest with
+    | nil => rfl
+    | cons c cs =>
+      rw [parseIntLoop]
+      have : ¬ isDigit c = true := fun h => hr c rfl ((isDigit_iff _).mp h)
+      simp only [this]
+      rfl
+  | cons c cs ih =>
+    have hc := hd c List.mem_cons_self
+    have hr1 := digit_val_range c hc
+    have hd' : ∀ x ∈ cs, IsDigit x := fun x hx => hd x (List.mem_cons_of_mem _ hx)
+    rw [numAcc_cons] at hmax
+    have hge := numAcc_ge (v * 10 + ((c.toNat : Int) - 48)) cs (by omega) hd'
+    rw [List.cons_append, parseIntLoop]
+    simp only [(isDigit_iff c).mpr hc, if_true, kMaxInt_div]
+    unfold kMaxInt at hmax ⊢
+    rw [if_neg (by omega), if_neg (by omega), ih _ _ (by omega) hd' hmax, numAcc_cons]
+    simp
+theorem parseInt_iff (p rest : Bytes) (lo hi v : Int) (hhi : hi ≤ kMaxInt) :
+    parseInt p lo hi = some (rest, v) ↔
+      ∃ ds, p = ds ++ rest ∧ IsNum ds lo hi v ∧ NextNot IsDigit rest := by
+  unfold parseInt IsNum
+  constructor
+  · intro h
+    split at h
+    · exact absurd h (by simp)
+    · rename_i r v' any hl
+      split at h
+      · exact absurd h (by simp)
+      · rename_i hc
+        injection h with h; injection h with h1 h2; subst h1 h2
+        obtain ⟨ds, h1, h2, h3, h4, h5⟩ := parseIntLoop_sound _ _ _ _ _ _ hl
+        simp only [Bool.or_eq_true, Bool.not_eq_true', decide_eq_true_eq, not_or, Bool.not_eq_false,
+          Int.not_lt] at hc
+        refine ⟨ds, h1, ⟨?_, h2, h3, hc.1.2, hc.2⟩, h5⟩
+        intro hn; subst hn; simp at h4; rw [h4] at hc; simp at hc
+  · rintro ⟨ds, h1, ⟨h2, h3, h4, h5, h6⟩, h7⟩
+    subst h1
+    have := parseIntLoop_complete ds rest 0 false (by omega) h3 h7 (by rw [← numVal_eq, ← h4]; omega)
+    rw [this]
+    have hne : ds.isEmpty = false := by cases ds <;> simp_all
+    simp only [hne, Bool.not_false, Bool.or_true, Bool.not_true, Bool.false_or, ← numVal_eq, ← h4]
+    rw [if_neg (by simp; omega)]
+/-! ### abbreviations -/
+
+theorem peek_cons (c : UInt8) (cs : Bytes) : peek (c :: cs) = c := rfl
+theorem peek_nil : peek ([] : Bytes) = 0 := rfl
+
+theorem peek_eq_iff (p : Bytes) (k : UInt8) (hk : k ≠ 0) : peek p = k ↔ p.head? = some k := by
+  cases p with
+  | nil => simp [peek_nil]; exact fun h => hk h.symm
+  | cons c cs => simp [peek_cons]
+
+theorem stop_iff (c : UInt8) : (decide (c = 45) || decide (c = 43) || decide (c = 44) || isDigit c) = true ↔ IsStop c := by
+  unfold IsStop
+  rw [← isDigit_iff]
+  simp only [Bool.or_eq_true, decide_eq_true_eq]
+  constructor
+  · rintro (((h | h) | h) | h)
+    · exact Or.inr (Or.inr (Or.inl h))
+    · exact Or.inr (Or.inl h)
+    · exact Or.inr (Or.inr (Or.inr h))
+    · exact Or.inl h
+  · rintro (h | h | h | h)
+    · exact Or.inr h
+    · exact Or.inl (Or.inl (Or.inr h))
+    · exact Or.inl (Or.inl (Or.inl h))
+    · exact Or.inl (Or.inr h)
+
+theorem parseAbbr_iff (p rest a : Bytes) :
+    parseAbbr p = some (rest, a) ↔ ∃ t, p = t ++ rest ∧ IsAbbr t rest a := by
+  unfold parseAbbr IsAbbr
+  by_cases hq : peek p = 60
+  · simp only [hq, if_true]
+    have hp : p.head? = some 60 := (peek_eq_iff p 60 (by decide)).mp hq
+    cases p with
+    | nil => simp at hp
+    | cons c q =>
+      simp only [List.head?_cons, Option.some.injEq] at hp
+      subst hp
+      simp only [List.drop_succ_cons, List.drop_zero]
+      constructor
+      · intro h
+        split at h
+        · exact absurd h (by simp)
+        · rename_i x r hd
+          injection h with h; injection h with h1 h2; subst h1 h2
+          have := (span_iff (fun x => decide (x ≠ 62)) q _ _).mp ⟨rfl, hd⟩
+          obtain ⟨h1, h2, h3⟩ := this
+          have hx : x = 62 := by simpa using h3 x rfl
+          subst hx
+          refine ⟨60 :: (List.takeWhile (fun x => decide (x ≠ 62)) q ++ [62]), ?_, Or.inl ⟨rfl, ?_⟩⟩
+          · simp only [List.cons_append, List.append_assoc]
+            exact congrArg (List.cons 60) h1
+          · intro c hc; simpa using h2 c hc
+      · rintro ⟨t, ht, (⟨h1, h2⟩ | ⟨h1, h2, h3, h4, h5⟩)⟩
+        · subst h1
+          have hq' : q = a ++ (62 :: rest) := by simpa using ht
+          have := (span_iff (fun x => decide (x ≠ 62)) q a (62 :: rest)).mpr
+            ⟨hq', fun c hc => by simpa using h2 c hc, fun c hc => by simp at hc; subst hc; simp⟩
+          rw [this.1, this.2]
+        · subst h1
+          exfalso
+          cases t with
+          | nil => simp at h2
+          | cons y ys =>
+            simp at ht h4
+            exact h4 ht.1.symm
+  · simp only [hq, if_false]
+    have hp : p.head? ≠ some 60 := fun h => hq ((peek_eq_iff p 60 (by decide)).mpr h)
+    constructor
+    · intro h
+      split at h
+      · exact absurd h (by simp)
+      · rename_i hl
+        injection h with h; injection h with h1 h2
+        have := (span_iff _ p _ _).mp ⟨h2, h1⟩
+        rw [h2] at hl
+        obtain ⟨e1, e2, e3⟩ := this
+        refine ⟨a, e1, Or.inr ⟨rfl, by omega, ?_, ?_, ?_⟩⟩
+        · intro c hc hs
+          have := e2 c hc
+          rw [(stop_iff c).mpr hs] at this; simp at this
+        · cases a with
+          | nil => simp
+          | cons y ys => rw [e1] at hp; simpa using hp
+        · intro c hc
+          have := e3 c hc
+          apply (stop_iff c).mp
+          revert this
+          cases (decide (c = 45) || decide (c = 43) || decide (c = 44) || isDigit c) <;> simp
+    · rintro ⟨t, ht, (⟨h1, h2⟩ | ⟨h1, h2, h3, h4, h5⟩)⟩
+      · subst h1; subst ht; simp at hp
+      · subst h1
+        have := (span_iff (fun c => !(decide (c = 45) || decide (c = 43) || decide (c = 44) || isDigit c)) p t rest).mpr
+          ⟨ht, ?_, ?_⟩
+        · rw [this.1, this.2, if_neg (by omega)]
+        · intro c hc
+          have := h3 c hc
+          rw [← stop_iff] at this
+          simpa using this
+        · intro c hc
+          have := h5 c hc
+          rw [← stop_iff] at this
+          simp only [this, Bool.not_true]
+/-! ### offsets -/
+
+theorem IsNum_lo (ds : Bytes) (lo hi v : Int) (hlo : lo ≤ 0) : IsNum ds lo hi v ↔ IsNum ds 0 hi v := by
+  unfold IsNum
+  constructor
+  · rintro ⟨h1, h2, h3, h4, h5⟩
+    exact ⟨h1, h2, h3, by rw [h3]; exact numVal_nonneg ds h2, h5⟩
+  · rintro ⟨h1, h2, h3, h4, h5⟩
+    exact ⟨h1, h2, h3, by omega, h5⟩
+
+/-- the part of `parseOffset` after the sign -/
+def hmsBody (p : Bytes) (lo hi sign : Int) : Option (Bytes × Int) := do
+  let (p, hours) ← parseInt p lo hi
+  if peek p = 58 then
+    let (p, minutes) ← parseInt (p.drop 1) Gen.posix_minutes_lo Gen.posix_minutes_hi
+    if peek p = 58 then
+      let (p, seconds) ← parseInt (p.drop 1) Gen.posix_seconds_lo Gen.posix_seconds_hi
+      pure (p, sign * ((((hours * 60) + minutes) * 60) + seconds))
+    else pure (p, sign * ((((hours * 60) + minutes) * 60) + 0))
+  else pure (p, sign * ((((hours * 60) + 0) * 60) + 0))
+
+theorem parseOffset_eq (p : Bytes) (lo hi sign : Int) :
+    parseOffset (some p) lo hi sign =
+      if peek p = 43 then hmsBody (p.drop 1) lo hi sign
+      else if peek p = 45 then hmsBody (p.drop 1) lo hi (-sign)
+      else hmsBody p lo hi sign := by
+  unfold parseOffset hmsBody
+  simp only [Option.bind_eq_bind, Option.bind_some]
+  by_cases h1 : peek p = 43
+  · simp only [h1, if_true]
+  · by_cases h2 : peek p = 45
+    · have : ¬ (45 : UInt8) = 43 := by decide
+      simp only [h2, this, if_true, if_false]
+    · simp only [h1, h2, if_false]
+
+theorem parseOffset_none (lo hi sign : Int) : parseOffset none lo hi sign = none := rfl
+
+theorem peek58_iff (p : Bytes) : peek p = 58 ↔ ∃ q, p = 58 :: q := by
+  cases p with
+  | nil => simp [peek_nil]
+  | cons c cs => simp [peek_cons]
+
+theorem not_peek58 (p : Bytes) : ¬ peek p = 58 ↔ NextNot (· = 58) p := by
+  unfold NextNot
+  cases p with
+  | nil => simp [peek_nil]
+  | cons c cs => simp [peek_cons]
+
+theorem hmsBody_sound (p rest : Bytes) (lo hi sg v : Int) (hlo : lo ≤ 0) (hhi : hi ≤ kMaxInt)
+    (h : hmsBody p lo hi sg = some (rest, v)) :
+    ∃ t w, p = t ++ rest ∧ IsHms hi t rest w ∧ v = sg * w := by
+  unfold hmsBody at h
+  cases h1 : parseInt p lo hi with
+  | none => simp [h1] at h
+  | some r1 =>
+    obtain ⟨p1, hh⟩ := r1
+    obtain ⟨hs, e1, n1, x1⟩ := (parseInt_iff p p1 lo hi hh hhi).mp h1
+    rw [IsNum_lo _ _ _ _ hlo] at n1
+    simp only [h1, Option.bind_eq_bind, Option.bind_some] at h
+    by_cases c1 : peek p1 = 58
+    · simp only [c1, if_true] at h
+      obtain ⟨q1, hq1⟩ := (peek58_iff p1).mp c1
+      subst hq1
+      simp only [List.drop_succ_cons, List.drop_zero] at h
+      cases h2 : parseInt q1 Gen.posix_minutes_lo Gen.posix_minutes_hi with
+      | none => simp [h2] at h
+      | some r2 =>
+        obtain ⟨p2, mm⟩ := r2
+        obtain ⟨ms, e2, n2, x2⟩ := (parseInt_iff q1 p2 _ _ mm (by decide)).mp h2
+        simp only [h2, Option.bind_some] at h
+        by_cases c2 : peek p2 = 58
+        · simp only [c2, if_true] at h
+          obtain ⟨q2, hq2⟩ := (peek58_iff p2).mp c2
+          subst hq2
+          simp only [List.drop_succ_cons, List.drop_zero] at h
+          cases h3 : parseInt q2 Gen.posix_seconds_lo Gen.posix_seconds_hi with
+          | none => simp [h3] at h
+          | some r3 =>
+            obtain ⟨p3, ss⟩ := r3
+            obtain ⟨sd, e3, n3, x3⟩ := (parseInt_iff q2 p3 _ _ ss (by decide)).mp h3
+            simp only [h3, Option.bind_some] at h
+            injection h with h; injection h with h4 h5
+            subst h4
+            refine ⟨hs ++ 58 :: (ms ++ 58 :: sd), (hh * 60 + mm) * 60 + ss, ?_,
+              Or.inr (Or.inr ⟨hs, ms, sd, hh, mm, ss, rfl, n1, n2, n3, rfl, x3⟩), h5.symm⟩
+            rw [e1, e2, e3]; simp
+        · simp only [c2, if_false] at h
+          injection h with h; injection h with h4 h5
+          subst h4
+          refine ⟨hs ++ 58 :: ms, (hh * 60 + mm) * 60, ?_,
+            Or.inr (Or.inl ⟨hs, ms, hh, mm, rfl, n1, n2, rfl, x2, (not_peek58 _).mp c2⟩), ?_⟩
+          · rw [e1, e2]; simp
+          · rw [← h5]; simp
+    · simp only [c1, if_false] at h
+      injection h with h; injection h with h4 h5
+      subst h4
+      refine ⟨hs, hh * 3600, e1, Or.inl ⟨hh, n1, rfl, x1, (not_peek58 _).mp c1⟩, ?_⟩
+      rw [← h5]
+      have : (hh * 60 + 0) * 60 + 0 = hh * 3600 := by omega
+      rw [this]
+theorem nextNot_digit_cons (c : UInt8) (cs : Bytes) (hc : ¬ IsDigit c) : NextNot IsDigit (c :: cs) := by
+  intro x hx; simp at hx; subst hx; exact hc
+
+theorem not_digit_58 : ¬ IsDigit 58 := by unfold IsDigit; decide
+theorem not_digit_46 : ¬ IsDigit 46 := by unfold IsDigit; decide
+theorem not_digit_47 : ¬ IsDigit 47 := by unfold IsDigit; decide
+theorem not_digit_44 : ¬ IsDigit 44 := by unfold IsDigit; decide
+
+theorem hmsBody_complete (t rest : Bytes) (lo hi sg w : Int) (hlo : lo ≤ 0) (hhi : hi ≤ kMaxInt)
+    (h : IsHms hi t rest w) : hmsBody (t ++ rest) lo hi sg = some (rest, sg * w) := by
+  unfold hmsBody
+  rcases h with ⟨hh, n1, rfl, x1, y1⟩ | ⟨hs, ms, hh, mm, rfl, n1, n2, rfl, x1, y1⟩ |
+      ⟨hs, ms, sd, hh, mm, ss, rfl, n1, n2, n3, rfl, x1⟩
+  · rw [← IsNum_lo _ lo _ _ hlo] at n1
+    have p1 := (parseInt_iff (t ++ rest) rest lo hi hh hhi).mpr ⟨t, rfl, n1, x1⟩
+    have c1 := (not_peek58 rest).mpr y1
+    simp only [p1, Option.bind_eq_bind, Option.bind_some, c1, if_false]
+    have : (hh * 60 + 0) * 60 + 0 = hh * 3600 := by omega
+    rw [this]; rfl
+  · rw [← IsNum_lo _ lo _ _ hlo] at n1
+    have e : (hs ++ 58 :: ms) ++ rest = hs ++ (58 :: (ms ++ rest)) := by simp
+    have p1 := (parseInt_iff (hs ++ (58 :: (ms ++ rest))) _ lo hi hh hhi).mpr
+      ⟨hs, rfl, n1, nextNot_digit_cons _ _ not_digit_58⟩
+    have p2 := (parseInt_iff (ms ++ rest) rest Gen.posix_minutes_lo Gen.posix_minutes_hi mm (by decide)).mpr
+      ⟨ms, rfl, n2, x1⟩
+    have c1 := (not_peek58 rest).mpr y1
+    simp only [e, p1, Option.bind_eq_bind, Option.bind_some, peek_cons, if_true, List.drop_succ_cons,
+      List.drop_zero, p2, c1, if_false]
+    simp
+  · rw [← IsNum_lo _ lo _ _ hlo] at n1
+    have e : (hs ++ 58 :: (ms ++ 58 :: sd)) ++ rest = hs ++ (58 :: (ms ++ (58 :: (sd ++ rest)))) := by simp
+    have p1 := (parseInt_iff (hs ++ (58 :: (ms ++ (58 :: (sd ++ rest))))) _ lo hi hh hhi).mpr
+      ⟨hs, rfl, n1, nextNot_digit_cons _ _ not_digit_58⟩
+    have p2 := (parseInt_iff (ms ++ (58 :: (sd ++ rest))) _ Gen.posix_minutes_lo Gen.posix_minutes_hi mm (by decide)).mpr
+      ⟨ms, rfl, n2, nextNot_digit_cons _ _ not_digit_58⟩
+    have p3 := (parseInt_iff (sd ++ rest) rest Gen.posix_seconds_lo Gen.posix_seconds_hi ss (by decide)).mpr
+      ⟨sd, rfl, n3, x1⟩
+    simp only [e, p1, Option.bind_eq_bind, Option.bind_some, peek_cons, if_true, List.drop_succ_cons,
+      List.drop_zero, p2, p3]
+    rfl
+theorem IsNum_head (ds : Bytes) (lo hi v : Int) (h : IsNum ds lo hi v) : ∃ c cs, ds = c :: cs ∧ IsDigit c := by
+  obtain ⟨h1, h2, _⟩ := h
+  cases ds with
+  | nil => exact absurd rfl h1
+  | cons c cs => exact ⟨c, cs, rfl, h2 c List.mem_cons_self⟩
+
+theorem IsHms_head (hi : Int) (t rest : Bytes) (w : Int) (h : IsHms hi t rest w) :
+    ∃ c cs, t = c :: cs ∧ IsDigit c := by
+  rcases h with ⟨hh, n1, _⟩ | ⟨hs, ms, hh, mm, rfl, n1, _⟩ | ⟨hs, ms, sd, hh, mm, ss, rfl, n1, _⟩
+  · exact IsNum_head _ _ _ _ n1
+  · obtain ⟨c, cs, rfl, hc⟩ := IsNum_head _ _ _ _ n1
+    exact ⟨c, _, rfl, hc⟩
+  · obtain ⟨c, cs, rfl, hc⟩ := IsNum_head _ _ _ _ n1
+    exact ⟨c, _, rfl, hc⟩
+
+theorem not_digit_43 : ¬ IsDigit 43 := by unfold IsDigit; decide
+theorem not_digit_45 : ¬ IsDigit 45 := by unfold IsDigit; decide
+
+theorem peek_eq_cons (p : Bytes) (k : UInt8) (hk : k ≠ 0) : peek p = k ↔ ∃ q, p = k :: q := by
+  cases p with
+  | nil => simp [peek_nil]; exact fun h => hk h.symm
+  | cons c cs => simp [peek_cons]
+
+theorem parseOffset_iff (p rest : Bytes) (lo hi sg v : Int) (hlo : lo ≤ 0) (hhi : hi ≤ kMaxInt) :
+    parseOffset (some p) lo hi sg = some (rest, v) ↔
+      ∃ t w, p = t ++ rest ∧ IsSignedHms hi t rest w ∧ v = sg * w := by
+  rw [parseOffset_eq]
+  constructor
+  · intro h
+    by_cases c1 : peek p = 43
+    · rw [if_pos c1] at h
+      obtain ⟨q, rfl⟩ := (peek_eq_cons p 43 (by decide)).mp c1
+      obtain ⟨t, w, e, hw, hv⟩ := hmsBody_sound _ _ _ _ _ _ hlo hhi h
+      simp only [List.drop_succ_cons, List.drop_zero] at e
+      exact ⟨43 :: t, w, by rw [e]; rfl, Or.inr (Or.inl ⟨t, rfl, hw⟩), hv⟩
+    · rw [if_neg c1] at h
+      by_cases c2 : peek p = 45
+      · rw [if_pos c2] at h
+        obtain ⟨q, rfl⟩ := (peek_eq_cons p 45 (by decide)).mp c2
+        obtain ⟨t, w, e, hw, hv⟩ := hmsBody_sound _ _ _ _ _ _ hlo hhi h
+        simp only [List.drop_succ_cons, List.drop_zero] at e
+        refine ⟨45 :: t, -w, by rw [e]; rfl, Or.inr (Or.inr ⟨t, w, rfl, hw, rfl⟩), ?_⟩
+        rw [hv, Int.neg_mul, Int.mul_neg]
+      · rw [if_neg c2] at h
+        obtain ⟨t, w, e, hw, hv⟩ := hmsBody_sound _ _ _ _ _ _ hlo hhi h
+        exact ⟨t, w, e, Or.inl hw, hv⟩
+  · rintro ⟨t, w, rfl, (hw | ⟨b, rfl, hw⟩ | ⟨b, w', rfl, hw, rfl⟩), rfl⟩
+    · obtain ⟨c, cs, rfl, hc⟩ := IsHms_head _ _ _ _ hw
+      have c1 : ¬ peek ((c :: cs) ++ rest) = 43 := by
+        rw [List.cons_append, peek_cons]; intro h; subst h; exact not_digit_43 hc
+      have c2 : ¬ peek ((c :: cs) ++ rest) = 45 := by
+        rw [List.cons_append, peek_cons]; intro h; subst h; exact not_digit_45 hc
+      rw [if_neg c1, if_neg c2]
+      exact hmsBody_complete _ _ _ _ _ _ hlo hhi hw
+    · rw [List.cons_append, peek_cons, if_pos rfl]
+      simp only [List.drop_succ_cons, List.drop_zero]
+      exact hmsBody_complete _ _ _ _ _ _ hlo hhi hw
+    · rw [List.cons_append, peek_cons, if_neg (by decide), if_pos rfl]
+      simp only [List.drop_succ_cons, List.drop_zero]
+      rw [hmsBody_complete _ _ _ _ _ _ hlo hhi hw, Int.neg_mul, Int.mul_neg]
+/-! ### dates -/
+
+/-- the date part of `parseDateTime`, after the comma -/
+def parseDate (q : Bytes) : Option (Bytes × Date) :=
+  if peek q = 77 then
+    match parseInt (q.drop 1) Gen.posix_month_lo Gen.posix_month_hi with
+    | none => none
+    | some (q1, month) =>
+      if peek q1 = 46 then
+        match parseInt (q1.drop 1) Gen.posix_week_lo Gen.posix_week_hi with
+        | none => none
+        | some (q2, week) =>
+          if peek q2 = 46 then
+            match parseInt (q2.drop 1) Gen.posix_weekday_lo Gen.posix_weekday_hi with
+            | none => none
+            | some (q3, weekday) => some (q3, ⟨.M, month, week, weekday⟩)
+          else none
+      else none
+  else if peek q = 74 then
+    match parseInt (q.drop 1) Gen.posix_jday_lo Gen.posix_jday_hi with
+    | none => none
+    | some (q1, day) => some (q1, ⟨.J, day, 0, 0⟩)
+  else
+    match parseInt q Gen.posix_nday_lo Gen.posix_nday_hi with
+    | none => none
+    | some (q1, day) => some (q1, ⟨.N, day, 0, 0⟩)
+
+/-- the time part of `parseDateTime` -/
+def parseTime (q : Bytes) (d : Date) : Option Bytes × Transition :=
+  if peek q = 47 then
+    match parseOffset (some (q.drop 1)) Gen.posix_time_lo Gen.posix_time_hi Gen.posix_time_sign with
+    | none => (none, ⟨some d, some Gen.posix_default_time⟩)
+    | some (q1, off) => (some q1, ⟨some d, some off⟩)
+  else (some q, ⟨some d, some Gen.posix_default_time⟩)
+
+theorem parseDateTime_none (res : Transition) : parseDateTime none res = (none, res) := rfl
+
+theorem parseDateTime_eq (p : Bytes) (res : Transition) :
+    parseDateTime (some p) res =
+      if peek p = 44 then
+        match parseDate (p.drop 1) with
+        | none => (none, res)
+        | some (q, d) => parseTime q d
+      else (none, res) := by
+  unfold parseDateTime parseDate parseTime
+  by_cases c0 : peek p = 44
+  · simp only [c0, if_true]
+    by_cases c1 : peek (p.drop 1) = 77
+    · simp only [c1, if_true]
+      cases parseInt (List.drop 1 (List.drop 1 p)) Gen.posix_month_lo Gen.posix_month_hi with
+      | none => rfl
+      | some r1 =>
+        obtain ⟨q1, m⟩ := r1
+        simp only []
+        by_cases c2 : peek q1 = 46
+        · simp only [c2, if_true]
+          cases parseInt (List.drop 1 q1) Gen.posix_week_lo Gen.posix_week_hi with
+          | none => rfl
+          | some r2 =>
+            obtain ⟨q2, w⟩ := r2
+            simp only []
+            by_cases c3 : peek q2 = 46
+            · simp only [c3, if_true]
+              cases parseInt (List.drop 1 q2) Gen.posix_weekday_lo Gen.posix_weekday_hi with
+              | none => rfl
+              | some r3 =>
+                obtain ⟨q3, wd⟩ := r3
+                simp only []
+                by_cases c4 : peek q3 = 47
+                · simp only [c4, if_true]
+                  cases parseOffset (some (List.drop 1 q3)) Gen.posix_time_lo Gen.posix_time_hi Gen.posix_time_sign with
+                  | none => rfl
+                  | some r4 => rfl
+                · simp only [c4, if_false]
+            · simp only [c3, if_false]
+        · simp only [c2, if_false]
+    · simp only [c1, if_false]
+      by_cases c5 : peek (p.drop 1) = 74
+      · simp only [c5, if_true]
+        cases parseInt (List.drop 1 (List.drop 1 p)) Gen.posix_jday_lo Gen.posix_jday_hi with
+        | none => rfl
+        | some r1 =>
+          obtain ⟨q1, dd⟩ := r1
+          simp only []
+          by_cases c4 : peek q1 = 47
+          · simp only [c4, if_true]
+            cases parseOffset (some (List.drop 1 q1)) Gen.posix_time_lo Gen.posix_time_hi Gen.posix_time_sign with
+            | none => rfl
+            | some r4 => rfl
+          · simp only [c4, if_false]
+      · simp only [c5, if_false]
+        cases parseInt (List.drop 1 p) Gen.posix_nday_lo Gen.posix_nday_hi with
+        | none => rfl
+        | some r1 =>
+          obtain ⟨q1, dd⟩ := r1
+          simp only []
+          by_cases c4 : peek q1 = 47
+          · simp only [c4, if_true]
+            cases parseOffset (some (List.drop 1 q1)) Gen.posix_time_lo Gen.posix_time_hi Gen.posix_time_sign with
+            | none => rfl
+            | some r4 => rfl
+          · simp only [c4, if_false]
+  · simp only [c0, if_false]
+theorem not_digit_77 : ¬ IsDigit 77 := by unfold IsDigit; decide
+theorem not_digit_74 : ¬ IsDigit 74 := by unfold IsDigit; decide
+
+theorem parseDate_sound (q rest : Bytes) (d : Date) (h : parseDate q = some (rest, d)) :
+    ∃ t, q = t ++ rest ∧ IsDate t rest d := by
+  unfold parseDate at h
+  by_cases c1 : peek q = 77
+  · simp only [c1, if_true] at h
+    obtain ⟨q', rfl⟩ := (peek_eq_cons q 77 (by decide)).mp c1
+    simp only [List.drop_succ_cons, List.drop_zero] at h
+    cases h1 : parseInt q' Gen.posix_month_lo Gen.posix_month_hi with
+    | none => simp [h1] at h
+    | some r1 =>
+      obtain ⟨q1, m⟩ := r1
+      simp only [h1] at h
+      obtain ⟨ms, e1, n1, _⟩ := (parseInt_iff _ _ _ _ _ (by decide)).mp h1
+      by_cases c2 : peek q1 = 46
+      · simp only [c2, if_true] at h
+        obtain ⟨q1', rfl⟩ := (peek_eq_cons q1 46 (by decide)).mp c2
+        simp only [List.drop_succ_cons, List.drop_zero] at h
+        cases h2 : parseInt q1' Gen.posix_week_lo Gen.posix_week_hi with
+        | none => simp [h2] at h
+        | some r2 =>
+          obtain ⟨q2, w⟩ := r2
+          simp only [h2] at h
+          obtain ⟨ws, e2, n2, _⟩ := (parseInt_iff _ _ _ _ _ (by decide)).mp h2
+          by_cases c3 : peek q2 = 46
+          · simp only [c3, if_true] at h
+            obtain ⟨q2', rfl⟩ := (peek_eq_cons q2 46 (by decide)).mp c3
+            simp only [List.drop_succ_cons, List.drop_zero] at h
+            cases h3 : parseInt q2' Gen.posix_weekday_lo Gen.posix_weekday_hi with
+            | none => simp [h3] at h
+            | some r3 =>
+              obtain ⟨q3, wd⟩ := r3
+              simp only [h3] at h
+              obtain ⟨ds, e3, n3, x3⟩ := (parseInt_iff _ _ _ _ _ (by decide)).mp h3
+              injection h with h; injection h with h4 h5
+              subst h4
+              refine ⟨77 :: (ms ++ 46 :: (ws ++ 46 :: ds)), ?_,
+                Or.inr (Or.inr ⟨ms, ws, ds, m, w, wd, rfl, n1, n2, n3, h5.symm, x3⟩)⟩
+              rw [e1, e2, e3]; simp
+          · simp [c3] at h
+      · simp [c2] at h
+  · simp only [c1, if_false] at h
+    by_cases c5 : peek q = 74
+    · simp only [c5, if_true] at h
+      obtain ⟨q', rfl⟩ := (peek_eq_cons q 74 (by decide)).mp c5
+      simp only [List.drop_succ_cons, List.drop_zero] at h
+      cases h1 : parseInt q' Gen.posix_jday_lo Gen.posix_jday_hi with
+      | none => simp [h1] at h
+      | some r1 =>
+        obtain ⟨q1, n⟩ := r1
+        simp only [h1] at h
+        obtain ⟨ds, e1, n1, x1⟩ := (parseInt_iff _ _ _ _ _ (by decide)).mp h1
+        injection h with h; injection h with h4 h5
+        subst h4
+        exact ⟨74 :: ds, by rw [e1]; rfl, Or.inl ⟨ds, n, rfl, n1, h5.symm, x1⟩⟩
+    · simp only [c5, if_false] at h
+      cases h1 : parseInt q Gen.posix_nday_lo Gen.posix_nday_hi with
+      | none => simp [h1] at h
+      | some r1 =>
+        obtain ⟨q1, n⟩ := r1
+        simp only [h1] at h
+        obtain ⟨ds, e1, n1, x1⟩ := (parseInt_iff _ _ _ _ _ (by decide)).mp h1
+        injection h with h; injection h with h4 h5
+        subst h4
+        exact ⟨ds, e1, Or.inr (Or.inl ⟨n, n1, h5.symm, x1⟩)⟩
+
+theorem parseDate_complete (t rest : Bytes) (d : Date) (h : IsDate t rest d) :
+    parseDate (t ++ rest) = some (rest, d) := by
+  unfold parseDate
+  rcases h with ⟨ds, n, rfl, n1, rfl, x1⟩ | ⟨n, n1, rfl, x1⟩ |
+    ⟨ms, ws, ds, m, w, wd, rfl, n1, n2, n3, rfl, x1⟩
+  · have p1 := (parseInt_iff (ds ++ rest) rest Gen.posix_jday_lo Gen.posix_jday_hi n (by decide)).mpr
+      ⟨ds, rfl, n1, x1⟩
+    rw [List.cons_append, peek_cons, if_neg (by decide), if_pos rfl]
+    simp only [List.drop_succ_cons, List.drop_zero, p1]
+  · obtain ⟨c, cs, rfl, hc⟩ := IsNum_head _ _ _ _ n1
+    have p1 := (parseInt_iff ((c :: cs) ++ rest) rest Gen.posix_nday_lo Gen.posix_nday_hi n (by decide)).mpr
+      ⟨c :: cs, rfl, n1, x1⟩
+    have c1 : ¬ c = 77 := by intro h; subst h; exact not_digit_77 hc
+    have c2 : ¬ c = 74 := by intro h; subst h; exact not_digit_74 hc
+    simp only [List.cons_append, peek_cons, c1, c2, if_false]
+    rw [List.cons_append] at p1
+    simp only [p1]
+  · have e : (77 :: (ms ++ 46 :: (ws ++ 46 :: ds))) ++ rest = 77 :: (ms ++ (46 :: (ws ++ (46 :: (ds ++ rest))))) := by
+      simp
+    have p1 := (parseInt_iff (ms ++ (46 :: (ws ++ (46 :: (ds ++ rest))))) _ Gen.posix_month_lo Gen.posix_month_hi m
+      (by decide)).mpr ⟨ms, rfl, n1, nextNot_digit_cons _ _ not_digit_46⟩
+    have p2 := (parseInt_iff (ws ++ (46 :: (ds ++ rest))) _ Gen.posix_week_lo Gen.posix_week_hi w
+      (by decide)).mpr ⟨ws, rfl, n2, nextNot_digit_cons _ _ not_digit_46⟩
+    have p3 := (parseInt_iff (ds ++ rest) rest Gen.posix_weekday_lo Gen.posix_weekday_hi wd
+      (by decide)).mpr ⟨ds, rfl, n3, x1⟩
+    simp only [e, peek_cons, if_true, List.drop_succ_cons, List.drop_zero, p1, p2, p3]
+theorem parseDateTime_sound (p rest : Bytes) (res res' : Transition)
+    (h : parseDateTime (some p) res = (some rest, res')) :
+    ∃ t d tm, p = t ++ rest ∧ IsDateTime t rest d tm ∧ res' = ⟨some d, some tm⟩ := by
+  rw [parseDateTime_eq] at h
+  by_cases c0 : peek p = 44
+  · rw [if_pos c0] at h
+    obtain ⟨q, rfl⟩ := (peek_eq_cons p 44 (by decide)).mp c0
+    simp only [List.drop_succ_cons, List.drop_zero] at h
+    cases h1 : parseDate q with
+    | none => simp [h1] at h
+    | some r1 =>
+      obtain ⟨q1, d⟩ := r1
+      simp only [h1] at h
+      obtain ⟨dt, e1, hd⟩ := parseDate_sound _ _ _ h1
+      unfold parseTime at h
+      by_cases c1 : peek q1 = 47
+      · rw [if_pos c1] at h
+        obtain ⟨q1', rfl⟩ := (peek_eq_cons q1 47 (by decide)).mp c1
+        simp only [List.drop_succ_cons, List.drop_zero] at h
+        cases h2 : parseOffset (some q1') Gen.posix_time_lo Gen.posix_time_hi Gen.posix_time_sign with
+        | none => simp [h2] at h
+        | some r2 =>
+          obtain ⟨q2, off⟩ := r2
+          simp only [h2] at h
+          obtain ⟨tt, w, e2, hw, hv⟩ := (parseOffset_iff _ _ _ _ _ _ (by decide) (by decide)).mp h2
+          have hs : Gen.posix_time_sign = 1 := rfl
+          rw [hs, Int.one_mul] at hv
+          injection h with h3 h4
+          injection h3 with h3
+          subst h3 hv
+          refine ⟨44 :: (dt ++ 47 :: tt), d, off, ?_, Or.inr ⟨dt, tt, rfl, ?_, hw⟩, h4.symm⟩
+          · rw [e1, e2]; simp
+          · rw [e2] at hd; simpa using hd
+      · rw [if_neg c1] at h
+        injection h with h3 h4
+        injection h3 with h3
+        subst h3
+        exact ⟨44 :: dt, d, 7200, by rw [e1]; rfl, Or.inl ⟨dt, rfl, hd, rfl⟩, h4.symm⟩
+  · rw [if_neg c0] at h
+    simp at h
+
+theorem parseDateTime_complete (t rest : Bytes) (d : Date) (tm : Int) (res : Transition)
+    (h : IsDateTime t rest d tm) (hr : rest.head? ≠ some 47) :
+    parseDateTime (some (t ++ rest)) res = (some rest, ⟨some d, some tm⟩) := by
+  rw [parseDateTime_eq]
+  rcases h with ⟨dt, rfl, hd, rfl⟩ | ⟨dt, tt, rfl, hd, hw⟩
+  · rw [List.cons_append, peek_cons, if_pos rfl]
+    simp only [List.drop_succ_cons, List.drop_zero, parseDate_complete _ _ _ hd]
+    unfold parseTime
+    rw [if_neg (fun hp => hr ((peek_eq_iff rest 47 (by decide)).mp hp))]
+    rfl
+  · have e : (44 :: (dt ++ 47 :: tt)) ++ rest = 44 :: (dt ++ (47 :: tt ++ rest)) := by simp
+    rw [e, peek_cons, if_pos rfl]
+    simp only [List.drop_succ_cons, List.drop_zero, parseDate_complete _ _ _ hd]
+    unfold parseTime
+    rw [List.cons_append, peek_cons, if_pos rfl]
+    simp only [List.drop_succ_cons, List.drop_zero]
+    have := (parseOffset_iff (tt ++ rest) rest Gen.posix_time_lo Gen.posix_time_hi Gen.posix_time_sign tm
+      (by decide) (by decide)).mpr ⟨tt, tm, rfl, hw, by show tm = 1 * tm; rw [Int.one_mul]⟩
+    rw [this]
+/-! ### the whole rule -/
+
+/-- the part of `parsePosixSpec` after the dst abbreviation -/
+def dstTailFn (p : Bytes) (stdAbbr : Bytes) (stdOff : Int) (dstAbbr : Bytes) : Option TimeZone :=
+  let res : TimeZone := { stdAbbr := stdAbbr, stdOffset := some stdOff, dstAbbr := dstAbbr,
+                          dstOffset := some (stdOff + Gen.posix_default_dst_shift) }
+  let r : Option (Bytes × TimeZone) :=
+    if peek p ≠ 44 then
+      match parseOffset (some p) Gen.posix_dstoff_lo Gen.posix_dstoff_hi Gen.posix_dstoff_sign with
+      | none => none
+      | some (p, dstOff) => some (p, { res with dstOffset := some dstOff })
+    else some (p, res)
+  let (p1, res) : Option Bytes × TimeZone :=
+    match r with
+    | none => (none, res)
+    | some (p, res) => let (p', s) := parseDateTime (some p) res.dstStart; (p', { res with dstStart := s })
+  let (p2, e) := parseDateTime p1 res.dstEnd
+  let res := { res with dstEnd := e }
+  match p2 with
+  | none => none
+  | some p => if peek p = 0 then some res else none
+
+theorem parsePosixSpec_eq (spec : Bytes) :
+    parsePosixSpec spec =
+      if peek (cstr spec) = 58 then none else
+      if spec.contains 0 then none else
+      match parseAbbr (cstr spec) with
+      | none => none
+      | some (p, stdAbbr) =>
+        match parseOffset (some p) Gen.posix_stdoff_lo Gen.posix_stdoff_hi Gen.posix_stdoff_sign with
+        | none => none
+        | some (p, stdOff) =>
+          if peek p = 0 then some { stdAbbr := stdAbbr, stdOffset := some stdOff } else
+          match parseAbbr p with
+          | none => none
+          | some (p, dstAbbr) => dstTailFn p stdAbbr stdOff dstAbbr := rfl
+
+/-- the part of `parsePosixSpec` after the dst offset -/
+def dtTail (p : Bytes) (res : TimeZone) : Option TimeZone :=
+  let (p', s) := parseDateTime (some p) res.dstStart
+  let res := { res with dstStart := s }
+  let (p2, e) := parseDateTime p' res.dstEnd
+  let res := { res with dstEnd := e }
+  match p2 with
+  | none => none
+  | some p => if peek p = 0 then some res else none
+
+theorem dstTailFn_eq (p stdAbbr : Bytes) (stdOff : Int) (dstAbbr : Bytes) :
+    dstTailFn p stdAbbr stdOff dstAbbr =
+      if peek p = 44 then
+        dtTail p { stdAbbr := stdAbbr, stdOffset := some stdOff, dstAbbr := dstAbbr,
+                   dstOffset := some (stdOff + Gen.posix_default_dst_shift) }
+      else
+        match parseOffset (some p) Gen.posix_dstoff_lo Gen.posix_dstoff_hi Gen.posix_dstoff_sign with
+        | none => none
+        | some (p4, dstOff) =>
+          dtTail p4 { stdAbbr := stdAbbr, stdOffset := some stdOff, dstAbbr := dstAbbr, dstOffset := some dstOff } := by
+  unfold dstTailFn
+  by_cases c1 : peek p = 44
+  · simp only [c1, ne_eq, not_true_eq_false, if_false, if_true]; rfl
+  · simp only [c1, ne_eq, not_false_eq_true, if_true, if_false]
+    cases parseOffset (some p) Gen.posix_dstoff_lo Gen.posix_dstoff_hi Gen.posix_dstoff_sign with
+    | none => rfl
+    | some r => rfl
+
+theorem dtTail_iff (p4 a : Bytes) (o : Option Int) (d : Bytes) (x : Option Int) (r : TimeZone) :
+    dtTail p4 { stdAbbr := a, stdOffset := o, dstAbbr := d, dstOffset := x } = some r ↔
+      ∃ p5 s, parseDateTime (some p4) {} = (some p5, s) ∧
+      ∃ p6 e, parseDateTime (some p5) {} = (some p6, e) ∧ peek p6 = 0 ∧
+        r = { stdAbbr := a, stdOffset := o, dstAbbr := d, dstOffset := x, dstStart := s, dstEnd := e } := by
+  unfold dtTail
+  simp only []
+  rcases hdt1 : parseDateTime (some p4) {} with ⟨o1, s1⟩
+  cases o1 with
+  | none =>
+    simp only [parseDateTime_none]
+    constructor
+    · intro h; exact absurd h (by simp)
+    · rintro ⟨p5, s, h5, _⟩
+      injection h5 with h5; exact absurd h5 (by simp)
+  | some q5 =>
+    simp only []
+    rcases hdt2 : parseDateTime (some q5) {} with ⟨o2, e2⟩
+    cases o2 with
+    | none =>
+      simp only []
+      constructor
+      · intro h; exact absurd h (by simp)
+      · rintro ⟨p5, s, h5, p6, e, h6, _⟩
+        injection h5 with h5 h5'; injection h5 with h5; subst h5
+        rw [hdt2] at h6; injection h6 with h6; exact absurd h6 (by simp)
+    | some q6 =>
+      simp only []
+      constructor
+      · intro h
+        split at h
+        · rename_i hp
+          injection h with h
+          exact ⟨q5, s1, rfl, q6, e2, hdt2, hp, h.symm⟩
+        · exact absurd h (by simp)
+      · rintro ⟨p5, s, h5, p6, e, h6, hp, hr⟩
+        injection h5 with h5 h5'; injection h5 with h5; subst h5 h5'
+        rw [hdt2] at h6; injection h6 with h6 h6'; injection h6 with h6; subst h6 h6'
+        rw [if_pos hp, hr]
+theorem contains0_iff (s : Bytes) : s.contains 0 = false ↔ ∀ c ∈ s, c ≠ 0 := by
+  induction s with
+  | nil => simp
+  | cons c cs ih =>
+    simp only [List.contains_cons, Bool.or_eq_false_iff, ih, List.mem_cons, forall_eq_or_imp]
+    constructor
+    · rintro ⟨h1, h2⟩; exact ⟨by intro h; subst h; simp at h1, h2⟩
+    · rintro ⟨h1, h2⟩; exact ⟨by simpa using fun h => h1 h.symm, h2⟩
+
+theorem cstr_of_noNul (s : Bytes) (h : ∀ c ∈ s, c ≠ 0) : cstr s = s := by
+  unfold cstr
+  exact ((span_iff (fun c => decide (c ≠ 0)) s s []).mpr
+    ⟨by simp, fun c hc => by simpa using h c hc, by simp⟩).1
+
+theorem peek0_iff (p : Bytes) (h : ∀ c ∈ p, c ≠ 0) : peek p = 0 ↔ p = [] := by
+  cases p with
+  | nil => simp [peek_nil]
+  | cons c cs => simp [peek_cons]; exact h c List.mem_cons_self
+
+theorem IsDateTime_head (t rest : Bytes) (d : Date) (tm : Int) (h : IsDateTime t rest d tm) :
+    ∃ u, t = 44 :: u := by
+  rcases h with ⟨dt, rfl, _⟩ | ⟨dt, tt, rfl, _⟩ <;> exact ⟨_, rfl⟩
+
+theorem IsSignedHms_head (hi : Int) (t rest : Bytes) (w : Int) (h : IsSignedHms hi t rest w) :
+    ∃ c cs, t = c :: cs ∧ c ≠ 44 := by
+  rcases h with hw | ⟨b, rfl, hw⟩ | ⟨b, w', rfl, hw, _⟩
+  · obtain ⟨c, cs, rfl, hc⟩ := IsHms_head _ _ _ _ hw
+    exact ⟨c, cs, rfl, by intro h; subst h; exact not_digit_44 hc⟩
+  · exact ⟨43, b, rfl, by decide⟩
+  · exact ⟨45, b, rfl, by decide⟩
+theorem dtTail_sound (p4 a : Bytes) (o : Option Int) (d : Bytes) (x : Option Int) (r : TimeZone)
+    (hn : ∀ c ∈ p4, c ≠ 0)
+    (h : dtTail p4 { stdAbbr := a, stdOffset := o, dstAbbr := d, dstOffset := x } = some r) :
+    ∃ ts te d1 t1 d2 t2, p4 = ts ++ te ∧ IsDateTime ts te d1 t1 ∧ IsDateTime te [] d2 t2 ∧
+      r = { stdAbbr := a, stdOffset := o, dstAbbr := d, dstOffset := x,
+            dstStart := ⟨some d1, some t1⟩, dstEnd := ⟨some d2, some t2⟩ } := by
+  obtain ⟨p5, s, h5, p6, e, h6, hp, hr⟩ := (dtTail_iff _ _ _ _ _ _).mp h
+  obtain ⟨ts, d1, t1, e1, i1, rfl⟩ := parseDateTime_sound _ _ _ _ h5
+  obtain ⟨te, d2, t2, e2, i2, rfl⟩ := parseDateTime_sound _ _ _ _ h6
+  have hn6 : ∀ c ∈ p6, c ≠ 0 := fun c hc => hn c (by rw [e1, e2]; simp [hc])
+  have : p6 = [] := (peek0_iff p6 hn6).mp hp
+  subst this
+  rw [List.append_nil] at e2
+  subst e2
+  exact ⟨ts, p5, d1, t1, d2, t2, e1, i1, i2, hr⟩
+
+theorem parse_sound (s : Bytes) (r : TimeZone) (h : parsePosixSpec s = some r) : IsPosixSpec s r := by
+  rw [parsePosixSpec_eq] at h
+  by_cases c0 : peek (cstr s) = 58
+  · rw [if_pos c0] at h; exact absurd h (by simp)
+  rw [if_neg c0] at h
+  by_cases cn : s.contains 0 = true
+  · rw [if_pos cn] at h; exact absurd h (by simp)
+  rw [if_neg cn] at h
+  have hn : ∀ c ∈ s, c ≠ 0 := (contains0_iff s).mp (by simpa using cn)
+  rw [cstr_of_noNul s hn] at h c0
+  refine ⟨hn, fun hh => c0 ((peek_eq_iff s 58 (by decide)).mpr hh), ?_⟩
+  cases h1 : parseAbbr s with
+  | none => simp [h1] at h
+  | some r1 =>
+    obtain ⟨p1, stdAbbr⟩ := r1
+    simp only [h1] at h
+    obtain ⟨ta, e1, ia⟩ := (parseAbbr_iff _ _ _).mp h1
+    cases h2 : parseOffset (some p1) Gen.posix_stdoff_lo Gen.posix_stdoff_hi Gen.posix_stdoff_sign with
+    | none => simp [h2] at h
+    | some r2 =>
+      obtain ⟨p2, stdOff⟩ := r2
+      simp only [h2] at h
+      obtain ⟨to, w, e2, iw, hv⟩ := (parseOffset_iff _ _ _ _ _ _ (by decide) (by decide)).mp h2
+      have hs : Gen.posix_stdoff_sign = -1 := rfl
+      rw [hs, Int.neg_one_mul] at hv
+      subst hv
+      subst e2
+      have hn2 : ∀ c ∈ p2, c ≠ 0 := fun c hc => hn c (by rw [e1]; simp [hc])
+      refine ⟨ta, to, p2, stdAbbr, w, e1, ia, iw, ?_⟩
+      by_cases c2 : peek p2 = 0
+      · rw [if_pos c2] at h
+        injection h with h
+        exact Or.inl ⟨(peek0_iff p2 hn2).mp c2, h.symm⟩
+      · rw [if_neg c2] at h
+        right
+        cases h3 : parseAbbr p2 with
+        | none => simp [h3] at h
+        | some r3 =>
+          obtain ⟨p3, dstAbbr⟩ := r3
+          simp only [h3] at h
+          obtain ⟨ta', e3, ia'⟩ := (parseAbbr_iff _ _ _).mp h3
+          have hn3 : ∀ c ∈ p3, c ≠ 0 := fun c hc => hn2 c (by rw [e3]; simp [hc])
+          rw [dstTailFn_eq] at h
+          by_cases c3 : peek p3 = 44
+          · rw [if_pos c3] at h
+            obtain ⟨ts, te, d1, t1, d2, t2, e4, i1, i2, hr⟩ := dtTail_sound _ _ _ _ _ _ hn3 h
+            subst e4
+            refine ⟨dstAbbr, -w + 3600, ⟨some d1, some t1⟩, ⟨some d2, some t2⟩,
+              ⟨ta', [], ts, te, d1, t1, d2, t2, by simpa using e3, by simpa using ia', Or.inl ⟨rfl, rfl⟩,
+                i1, i2, rfl, rfl⟩, hr⟩
+          · rw [if_neg c3] at h
+            cases h4 : parseOffset (some p3) Gen.posix_dstoff_lo Gen.posix_dstoff_hi Gen.posix_dstoff_sign with
+            | none => simp [h4] at h
+            | some r4 =>
+              obtain ⟨p4, dstOff⟩ := r4
+              simp only [h4] at h
+              obtain ⟨to', w', e4, iw', hv'⟩ := (parseOffset_iff _ _ _ _ _ _ (by decide) (by decide)).mp h4
+              have hs' : Gen.posix_dstoff_sign = -1 := rfl
+              rw [hs', Int.neg_one_mul] at hv'
+              subst hv'
+              have hn4 : ∀ c ∈ p4, c ≠ 0 := fun c hc => hn3 c (by rw [e4]; simp [hc])
+              obtain ⟨ts, te, d1, t1, d2, t2, e5, i1, i2, hr⟩ := dtTail_sound _ _ _ _ _ _ hn4 h
+              subst e5
+              subst e4
+              exact ⟨dstAbbr, -w', ⟨some d1, some t1⟩, ⟨some d2, some t2⟩,
+                ⟨ta', to', ts, te, d1, t1, d2, t2, e3, ia', Or.inr ⟨w', iw', rfl⟩,
+                  i1, i2, rfl, rfl⟩, hr⟩
+theorem dtTail_complete (ts te a : Bytes) (o : Option Int) (d : Bytes) (x : Option Int)
+    (d1 : Date) (t1 : Int) (d2 : Date) (t2 : Int)
+    (i1 : IsDateTime ts te d1 t1) (i2 : IsDateTime te [] d2 t2) :
+    dtTail (ts ++ te) { stdAbbr := a, stdOffset := o, dstAbbr := d, dstOffset := x } =
+      some { stdAbbr := a, stdOffset := o, dstAbbr := d, dstOffset := x,
+             dstStart := ⟨some d1, some t1⟩, dstEnd := ⟨some d2, some t2⟩ } := by
+  rw [dtTail_iff]
+  obtain ⟨u, hu⟩ := IsDateTime_head _ _ _ _ i2
+  refine ⟨te, _, parseDateTime_complete ts te d1 t1 {} i1 (by rw [hu]; simp), [], _, ?_, rfl, rfl⟩
+  have := parseDateTime_complete te [] d2 t2 {} i2 (by simp)
+  rw [List.append_nil] at this
+  exact this
+
+theorem parse_complete (s : Bytes) (r : TimeZone) (h : IsPosixSpec s r) : parsePosixSpec s = some r := by
+  obtain ⟨hn, h58, ta, to, rest, stdAbbr, v, e1, ia, iw, hr⟩ := h
+  rw [parsePosixSpec_eq, cstr_of_noNul s hn]
+  rw [if_neg (fun hp => h58 ((peek_eq_iff s 58 (by decide)).mp hp))]
+  have cn : ¬ s.contains 0 = true := by
+    have := (contains0_iff s).mpr hn; rw [this]; simp
+  rw [if_neg cn]
+  have h1 : parseAbbr s = some (to ++ rest, stdAbbr) := (parseAbbr_iff _ _ _).mpr ⟨ta, e1, ia⟩
+  have h2 : parseOffset (some (to ++ rest)) Gen.posix_stdoff_lo Gen.posix_stdoff_hi Gen.posix_stdoff_sign
+      = some (rest, -v) :=
+    (parseOffset_iff _ _ _ _ _ _ (by decide) (by decide)).mpr
+      ⟨to, v, rfl, iw, by show -v = -1 * v; rw [Int.neg_one_mul]⟩
+  simp only [h1, h2]
+  have hnr : ∀ c ∈ rest, c ≠ 0 := fun c hc => hn c (by rw [e1]; simp [hc])
+  rcases hr with ⟨rfl, rfl⟩ | ⟨dstAbbr, dstOff, st, en, ⟨ta', to', ts, te, d1, t1, d2, t2, e2, ia', ho, i1, i2, rfl, rfl⟩, rfl⟩
+  · rw [if_pos peek_nil]
+  · obtain ⟨u, hu⟩ := IsDateTime_head _ _ _ _ i1
+    have hne : rest ≠ [] := by rw [e2, hu]; simp
+    rw [if_neg (fun hp => hne ((peek0_iff rest hnr).mp hp))]
+    have h3 : parseAbbr rest = some (to' ++ (ts ++ te), dstAbbr) := (parseAbbr_iff _ _ _).mpr ⟨ta', e2, ia'⟩
+    simp only [h3]
+    rw [dstTailFn_eq]
+    rcases ho with ⟨rfl, rfl⟩ | ⟨w, iw', rfl⟩
+    · rw [List.nil_append, hu, List.cons_append, peek_cons, if_pos rfl, ← List.cons_append, ← hu]
+      exact dtTail_complete _ _ _ _ _ _ _ _ _ _ i1 i2
+    · obtain ⟨c, cs, hc, hc44⟩ := IsSignedHms_head _ _ _ _ iw'
+      have c3 : ¬ peek (to' ++ (ts ++ te)) = 44 := by rw [hc, List.cons_append, peek_cons]; exact hc44
+      rw [if_neg c3]
+      have h4 : parseOffset (some (to' ++ (ts ++ te))) Gen.posix_dstoff_lo Gen.posix_dstoff_hi Gen.posix_dstoff_sign
+          = some (ts ++ te, -w) :=
+        (parseOffset_iff _ _ _ _ _ _ (by decide) (by decide)).mpr
+          ⟨to', w, rfl, iw', by show -w = -1 * w; rw [Int.neg_one_mul]⟩
+      simp only [h4]
+      exact dtTail_complete _ _ _ _ _ _ _ _ _ _ i1 i2
+end Cctz.Posix
